@@ -199,6 +199,47 @@ pub fn cases(thorough: bool) -> Vec<Case> {
             cs.push(Case { label: format!("sum={}", s), probes: p });
         }
     }
+    // (a2) the (stuck count, variation sum) grid: s constant-delta probes (stuck) followed by a zig-zag
+    // that brings the variation sum to a chosen value, around every product 16 * (300 - s) and the
+    // table/formula boundary 4800
+    for st in [1usize, 2, 3, 10, 50, 150, 250, 268] {
+        let mut targets: Vec<u64> = vec![3000, 4000, 4799, 4800, 4801, 5000, 600, 601];
+        let b = 16 * (300 - st as u64);
+        targets.extend([b - 1, b, b + 1, b + 7, (b + 4800) / 2]);
+        targets.sort();
+        targets.dedup();
+        for target in targets {
+            let c0: i64 = 37;
+            if target <= c0 as u64 + 5 {
+                continue;
+            }
+            let mut ds: Vec<i64> = vec![c0; st + 1];
+            let n = 300 - ds.len();
+            if n == 0 {
+                continue;
+            }
+            let rest = target - c0 as u64;
+            let q = rest / n as u64;
+            let extra = (rest % n as u64) as usize;
+            let mut d = c0;
+            let mut up = true;
+            for i in 0..n {
+                let v = (q + if i < extra { 1 } else { 0 }) as i64;
+                // strictly alternate up/down where possible (alternation is never stuck)
+                if up || d - v < 1 {
+                    d += v;
+                    up = false;
+                } else {
+                    d -= v;
+                    up = true;
+                }
+                ds.push(d);
+            }
+            let mut p: Vec<Probe> = (0..100).map(|i| Probe::d(warmup(i))).collect();
+            p.extend(ds.into_iter().map(Probe::d));
+            cs.push(Case { label: format!("grid stuck~{} sum={}", st, target), probes: p });
+        }
+    }
     // (b) thresholds on a healthy base
     let base = healthy();
     cs.push(Case { label: "healthy".into(), probes: base.clone() });
